@@ -247,6 +247,9 @@ func runC16(ctx *Ctx) error {
 			if r.Intn(6) == 0 {
 				// a challenge may be any text: one that ends like a prompt, a comment or a list
 				c.Challenge += []string{">", "]", ";", " >", "|x", "$"}[r.Intn(6)]
+			} else if r.Intn(12) == 0 {
+				// ... or very long (no length limit is stated for the line)
+				c.Challenge = r.StringFrom(alnum, []int{4080, 4088, 4096, 5000, 70000}[r.Intn(5)])
 			} else if r.Intn(6) == 0 {
 				// ... or text with white space inside: the line ends at the carriage return only,
 				// so a line feed, a tab or blanks inside the challenge belong to it
